@@ -19,7 +19,7 @@ use std::time::Instant;
 pub fn def() -> PropDef {
     PropDef {
         id: "C15",
-        rule: "all expected values come from the independent field arithmetic (refmodel). tables (exhaustive): exp[i] = g^i, exp[65535] = 1, log[x] for x >= 1, all 65535 skew entries = log of the normalised subspace polynomial s^_t(w) with the 16 sentinels, all 4M nibble products of Mul16 and of Mul128, LogWalsh[y] = sum_x (-1)^{|x&y|} log x mod 65535 for all y (own exact Walsh transform; the naive signed sum on 512 sampled y in quick and on all y in thorough). mul: per engine every log_m x (quick 2048 symbols incl. 0/1/0xFFFF/single-bit; thorough all 65536 symbols = all 2^32 pairs) against symbol*g^log_m. fft: random LCH-basis coefficients, outputs at pos..pos+truncated_size must be the polynomial's values at the points skew_delta+i (sizes <= 1024, chunk-aligned skew offsets up to the table end, sampled slots); ifft: inputs zero beyond truncated_size, the output coefficients evaluated by the reference must reproduce all size inputs. eval_poly: 0/1 vectors, every output (sparse marks) or 96 sampled outputs (dense marks) = sum over marked j != x of log(x^j) mod 65535 with 0 = 65535, bit-identical for two covering truncated sizes. non-trivial: log_m not in {0,65535} and symbol != 0; truncated < size; >= 2 marks",
+        rule: "all expected values come from the independent field arithmetic (refmodel). tables (exhaustive): exp[i] = g^i, exp[65535] = 1, log[x] for x >= 1, all 65535 skew entries = log of the normalised subspace polynomial s^_t(w) with the 16 sentinels, all 4M nibble products of Mul16 and of Mul128, LogWalsh[y] = sum_x (-1)^{|x&y|} log x mod 65535 for all y (own exact Walsh transform; the naive signed sum on 512 sampled y in quick and on all y in thorough). mul: per engine every log_m x (quick 2048 symbols incl. 0/1/0xFFFF/single-bit; thorough all 65536 symbols = all 2^32 pairs) against symbol*g^log_m. fft: random LCH-basis coefficients, outputs at pos..pos+truncated_size must be the polynomial's values at the points skew_delta+i (all outputs for sizes <= 1024; for sizes up to 65536 a sample of outputs containing the borders of the truncated range and of every eighth; chunk-aligned skew offsets up to the table end, sampled slots); ifft: inputs zero beyond truncated_size, the output coefficients evaluated by the reference must reproduce all size inputs. eval_poly: 0/1 vectors, every output (sparse marks) or 96 sampled outputs (dense marks) = sum over marked j != x of log(x^j) mod 65535 with 0 = 65535, bit-identical for two covering truncated sizes. non-trivial: log_m not in {0,65535} and symbol != 0; truncated < size; >= 2 marks",
         assumptions: &["log(0) has no definition and is not asserted", "modular quantities are compared modulo 65535 with 0 and 65535 identified"],
         parts,
     }
@@ -371,7 +371,7 @@ fn xf_strategy(t: Tier) -> BoxedStrategy<XfCase> {
     (
         prop_oneof![Just(Xform::Fft), Just(Xform::Ifft)],
         gen::engine(),
-        prop_oneof![8 => 0u8..=6, 2 => 7u8..=max_log],
+        prop_oneof![40 => 0u8..=6, 10 => 7u8..=max_log, 1 => 11u8..=16],
         prop_oneof![2 => Just(0usize), 1 => 1usize..=5],
         1usize..=2,
         (0u8..5, any::<u16>()),
@@ -393,6 +393,8 @@ fn xf_strategy(t: Tier) -> BoxedStrategy<XfCase> {
                 2 => chunks - 1,
                 _ => gen::idx_map(sraw, chunks - 1),
             };
+            let blocks = if size_log > 10 { 1 } else { blocks };
+            let skew_chunk = skew_chunk.min(chunks - 1);
             XfCase { which, eng, size_log, pos: pos_mul * size.min(8), blocks, trunc, skew_chunk, seed }
         })
         .boxed()
@@ -448,30 +450,53 @@ fn check_xf(c: &XfCase, st: &mut Stats) -> CheckResult {
     let nslots = 32 * c.blocks;
     let mut slots = vec![0usize, nslots - 1, rng.below(nslots)];
     slots.dedup();
+    // evaluation points: all of them for sizes <= 1024; for larger transforms a sample that contains the
+    // borders of the truncated range and of every quarter / eighth (the reference costs O(size) per point)
+    let limit = match c.which {
+        Xform::Fft => c.trunc,
+        Xform::Ifft => size,
+    };
+    let points: Vec<usize> = if size <= 1024 {
+        (0..limit).collect()
+    } else {
+        slots.truncate(1);
+        let mut v = vec![0usize, 1, limit.saturating_sub(1), limit.saturating_sub(2), limit / 2];
+        for q in 1..8 {
+            let b = q * size / 8;
+            v.extend_from_slice(&[b.saturating_sub(1), b, b + 1]);
+        }
+        for _ in 0..12 {
+            v.push(rng.below(limit.max(1)));
+        }
+        v.retain(|&p| p < limit);
+        v.sort_unstable();
+        v.dedup();
+        v
+    };
     for &s in &slots {
         match c.which {
             Xform::Fft => {
                 let coeff: Vec<u16> = (0..size).map(|i| input.sym(c.pos + i, s)).collect();
-                let want = lch_values(&coeff, skew_delta, c.trunc);
-                for i in 0..c.trunc {
+                for &i in &points {
+                    let want = lch_values(&coeff, skew_delta + i, 1)[0];
                     let got = buf.sym(c.pos + i, s);
-                    if got != want[i] {
+                    if got != want {
                         fail!(
-                            "{}::fft(size {size}, truncated {}, skew_delta {skew_delta}): output {i} (slot {s}) = {got:#06x}, the polynomial with the input LCH coefficients has value {:#06x} at point {}",
-                            c.eng.name(), c.trunc, want[i], skew_delta + i
+                            "{}::fft(size {size}, truncated {}, skew_delta {skew_delta}): output {i} (slot {s}) = {got:#06x}, the polynomial with the input LCH coefficients has value {want:#06x} at point {}",
+                            c.eng.name(), c.trunc, skew_delta + i
                         );
                     }
                 }
             }
             Xform::Ifft => {
                 let coeff: Vec<u16> = (0..size).map(|i| buf.sym(c.pos + i, s)).collect();
-                let vals = lch_values(&coeff, skew_delta, size);
-                for i in 0..size {
+                for &i in &points {
+                    let val = lch_values(&coeff, skew_delta + i, 1)[0];
                     let want = input.sym(c.pos + i, s);
-                    if vals[i] != want {
+                    if val != want {
                         fail!(
-                            "{}::ifft(size {size}, truncated {}, skew_delta {skew_delta}): the output coefficients (slot {s}) evaluate to {:#06x} at point {}, the input there was {want:#06x}",
-                            c.eng.name(), c.trunc, vals[i], skew_delta + i
+                            "{}::ifft(size {size}, truncated {}, skew_delta {skew_delta}): the output coefficients (slot {s}) evaluate to {val:#06x} at point {}, the input there was {want:#06x}",
+                            c.eng.name(), c.trunc, skew_delta + i
                         );
                     }
                 }
